@@ -24,7 +24,8 @@ RULE = (
     "through GlsaDirSet, and each yielded restriction is matched against every installed package (versions "
     "{0.9,1.0,1.0-r1,1.0-r2,1.1,10.0,2.0} x slots {0,1} x keywords) of the entry's name and of a foreign name; the "
     "verdict is compared with: name matches and some vulnerable range holds and no unaffected range holds and arch "
-    "carried. A class is (part, shape of the entry, operator kinds involved, glob/slot/arch involvement, verdict, outcome)."
+    "carried. A class is (part = shape of the entry, most special range kind involved (plain / r-op / revisionless r-op shortcut / glob), "
+    "slot and arch involvement, whether any package is affected, outcome)."
 )
 ASSUMPTIONS = [
     "Excl: rlt ranges on a version without revision (a guaranteed-empty range; pkgcore rejects the whole entry as invalid, the statement does not say what an invalid advisory yields)",
@@ -298,17 +299,16 @@ def _kinds(entry):
     return ks
 
 
+def _kind(ks):
+    return "glob" if "glob" in ks else "rshort" if "rshort" in ks else "rop" if "rop" in ks else "plain"
+
+
 def classify(part, entry, vec, bad):
     ks = _kinds(entry)
-    shape = f"v{len(entry['vuln'])}u{len(entry['unaff'])}"
-    feats = "+".join(k for k in ("plain", "rop", "rshort", "glob", "slot") if k in ks)
-    arch = "" if entry.get("arch") in (None, "*") else ":arch"
-    n = sum(vec)
-    verdict = "none" if n == 0 else ("all" if n == len(vec) else "some")
-    if part in ("P2", "P3", "P5"):
-        # keep the number of classes bounded: drop the plain/rop distinction for the large parts
-        feats = "+".join(k for k in ("rshort", "glob", "slot") if k in ks) or "basic"
-    return f"{part}:{shape}:{feats}{arch}:{verdict}:{'BAD' if bad else 'ok'}"
+    arch = "" if entry.get("arch") in (None, "*") else ":arch-limited"
+    slot = "+slot" if "slot" in ks and part == "P1" else ""
+    verdict = "some-affected" if any(vec) else "none-affected"
+    return f"{part}:{_kind(ks)}{slot}{arch}:{verdict}:{'BAD' if bad else 'ok'}"
 
 
 def _case(entry, pkg, obs, how, msg, extra=None):
@@ -452,9 +452,7 @@ def _work_grouped(task, dirpath):
                         )
                     bad = True
             ks = _kinds(a) | _kinds(b)
-            feats = "+".join(k for k in ("rshort", "glob", "slot") if k in ks) or "basic"
-            n = sum(vec)
-            k = f"P4:grouped:{feats}:{'none' if n == 0 else 'all' if n == len(vec) else 'some'}:{'BAD' if bad else 'ok'}"
+            k = f"P4-grouped:{_kind(ks)}:{'some-affected' if any(vec) else 'none-affected'}:{'BAD' if bad else 'ok'}"
             classes[k] = classes.get(k, 0) + 1
     return {"evals": evals, "classes": classes, "viol": viol, "samples": samples}
 
@@ -499,16 +497,35 @@ def replay(case):
     return []
 
 
-# ----------------------------------------------------------------------------------------------------------------
-# narrow classifiers: a counterexample belongs to defect D iff some set S of the known deviations containing D makes
-# the reference reproduce the recorded observation while S without D does not (D is necessary for the explanation).
+# --------------------------------------------------------------------------------------------------------------
+# narrow classifiers: a counterexample belongs to defect D iff the reference with deviation D switched on reproduces the
+# recorded observation and without it does not -- where the only other deviations that may be switched on at the same
+# time are those still listed as kind=finding for C45 in known_findings.json (a fixed defect is no excuse any more).
 # ----------------------------------------------------------------------------------------------------------------
 DEFECTS = ("glob-raw-string-prefix", "unaffected-glob-not-negated", "glob-slot-ignored", "rrange-slot-ignored")
+_listed = []
+
+
+def _listed_findings():
+    if not _listed:
+        import json
+
+        names = set()
+        path = os.path.join(os.path.dirname(os.path.dirname(os.path.dirname(os.path.abspath(__file__)))), "known_findings.json")
+        try:
+            with open(path) as f:
+                for e in json.load(f).get("findings", []):
+                    if e.get("property") == PROPERTY and e.get("kind") == "finding":
+                        names.add(e.get("predicate"))
+        except OSError:
+            pass
+        _listed.append(names)
+    return _listed[0]
 
 
 def _explains(case, d):
     obs = case["obs"]
-    others = [x for x in DEFECTS if x != d]
+    others = [x for x in DEFECTS if x != d and x in _listed_findings()]
     for n in range(len(others) + 1):
         for sub in itertools.combinations(others, n):
             if _expected(case, set(sub) | {d}) == obs and _expected(case, set(sub)) != obs:
